@@ -16,28 +16,29 @@ FunKind == {"function", "method"}
 \* ---- types -----------------------------------------------------------------
 ScalarTyp == {"str", "int", "float", "bool"}
 TypTok    == {"none"} \cup ScalarTyp \cup
-             {"OptStr", "OptInt", "OptBool", "ListStr", "LitStr", "UnionIntStr", "TupleIntStr", "Dotted"}
+             {"OptStr", "OptInt", "OptBool", "ListStr", "LitStr", "LitInt", "UnionIntStr", "TupleIntStr", "Dotted"}
 KwTyp     == "OptDict"                       \* the type of a **kwargs-style parameter (N7)
 \* tokens that only ever appear in observations (fills and fall-backs)
 ObsTypTok == TypTok \cup {KwTyp, "object", "Any", "NoneType", "dict", "other"}
-             \cup {"Opt:" \o t : t \in {"float", "ListStr", "LitStr", "UnionIntStr", "TupleIntStr", "Dotted", "object", "Any", "dict", "NoneType"}}
+             \cup {"Opt:" \o t : t \in {"float", "ListStr", "LitStr", "LitInt", "UnionIntStr", "TupleIntStr", "Dotted", "object", "Any", "dict", "NoneType"}}
 
 \* ---- defaults --------------------------------------------------------------
-DefTok    == {"absent", "none", "int0", "intPos", "intNeg", "float", "boolT", "boolF", "strEmpty", "str", "code"}
-ObsDefTok == DefTok \cup {"float0", "codeBare", "codeQ", "other"}
+DefTok    == {"absent", "none", "int0", "intPos", "intNeg", "float", "float0", "boolT", "boolF", "strEmpty", "str", "code"}
+ObsDefTok == DefTok \cup {"codeBare", "codeQ", "other"}
 
 \* which defaults make sense for which declared type (the supported domain of the quantifier)
 Compat(t) ==
   CASE t = "none"        -> {"absent", "none", "int0", "intPos", "intNeg", "float", "boolT", "boolF", "str", "code"}
     [] t = "str"         -> {"absent", "str", "strEmpty"}
     [] t = "int"         -> {"absent", "int0", "intPos", "intNeg"}
-    [] t = "float"       -> {"absent", "float"}
+    [] t = "float"       -> {"absent", "float", "float0"}
     [] t = "bool"        -> {"absent", "boolT", "boolF"}
-    [] t = "OptStr"      -> {"absent", "none", "str"}
-    [] t = "OptInt"      -> {"absent", "none", "intPos", "intNeg"}
-    [] t = "OptBool"     -> {"absent", "none", "boolT"}
+    [] t = "OptStr"      -> {"absent", "none", "str", "strEmpty"}            \* falsy explicit defaults under Optional[..] included
+    [] t = "OptInt"      -> {"absent", "none", "intPos", "intNeg", "int0"}
+    [] t = "OptBool"     -> {"absent", "none", "boolT", "boolF"}
     [] t = "ListStr"     -> {"absent", "none", "code"}
     [] t = "LitStr"      -> {"absent", "str"}
+    [] t = "LitInt"      -> {"absent", "intPos"}
     [] t = "UnionIntStr" -> {"absent", "intPos", "str"}
     [] t = "TupleIntStr" -> {"absent", "code"}
     [] t = "Dotted"      -> {"absent", "none", "code"}
